@@ -1,9 +1,9 @@
 package rules
 
 import (
+	"go/types"
 	"fmt"
 	"go/token"
-	"sort"
 	"strings"
 
 	"golang.org/x/tools/go/ssa"
@@ -15,12 +15,6 @@ import (
 func init() { Registry["C08"] = c08 }
 
 // allowedRelayWrites: the only modifications a relay may make to a frame it received.
-var allowedRelayWrites = map[string]string{
-	"(*Relayer).handleCallReq|Header.ID":                                   "message id remapped to the destination connection's id",
-	"(*Relayer).handleNonCallReq|Header.ID":                                "message id remapped back / forth through the relay item",
-	"(*lazyCallReq).SetTTL|payload":                                        "time-to-live clamped to the relay maximum",
-	"(*Relayer).updateMutatedCallReqContinueChecksum|payload":              "checksum bytes re-stamped after arg2 was modified",
-}
 
 func c08(p *core.Prog, r *core.Report) {
 	r.Explain = "Decides: (R1) a relay forwards received frames unmodified except for the message id, the clamped time-to-live and the re-stamped checksum: the census of every store into a header field or payload byte of a frame that did not come fresh from the pool, over the relay's synchronous call tree, equals that allowed set; (R2) id remapping: the destination id is the destination connection's next message id, the two relay items map destination id -> original id on the destination relayer and original id -> destination id on the source relayer, the frame is stamped with the destination id before it is handed over, and later frames are stamped with the item's remap id; (R3) the ttl is only lowered (shared with C14); (R4) the lazy parsers read the call req / call res frames with exactly the field widths of the specification (flattened layout comparison) and the offset constants equal the specified sums; (R5) arg2 append: count = original count + number of appended pairs, then the original pairs verbatim, then the appended pairs in order, arg1 copied and arg3 written from the original frame, only for the thrift scheme with unfragmented arg2; (R6) frames of one call are forwarded in arrival order by the source connection's single reader (shared with C04). An item is failed/finished in its lookup table under the pre-remap id; (R6) no frame of an ended call is forwarded and an admission error frame is terminal (shared with C10-R3). (R3) the ttl is clamped on every forwarding path (shared with C14); (R7) pooled per-call objects carry nothing over (shared with C04)."
@@ -33,6 +27,7 @@ func c08(p *core.Prog, r *core.Report) {
 	c08IDs(p, r)
 	c08Lazy(p, r)
 	c08Append(p, r)
+	c08PostRemapIDs(p, r, "C08-R2")
 	// the caller receives exactly what the destination produced: nothing of a
 	// call the relay has already ended (error frame sent) is forwarded.
 	r.Rule("C08-R6", "E6 paths/guards", 4, "no frame of an ended call is forwarded (shared with C10)")
@@ -43,6 +38,10 @@ func c08(p *core.Prog, r *core.Report) {
 	r.Alias("C14-R3", "C08-R3")
 	c14Relay(p, r)
 	r.Alias("C14-R3", "")
+	r.Rule("C08-R8", "E6 ordering/who-may-call", 6, "relay table invariants: ids never re-admitted while present, timers armed / released once (shared with C09)")
+	r.Alias("C09-R4", "C08-R8")
+	c09Forget(p, r)
+	r.Alias("C09-R4", "")
 	r.Rule("C08-R7", "E6 census/paths", 3, "pooled per-call objects carry nothing from the previous call (shared with C04)")
 	r.Alias("C04-R7", "C08-R7")
 	c04Pools(p, r)
@@ -234,10 +233,23 @@ func c08Writes(p *core.Prog, r *core.Report) {
 					args := core.CallArgs(x)
 					switch {
 					case strings.HasPrefix(k, "encoding/binary.") && strings.HasPrefix(o.Name(), "Put") && len(args) >= 2 && isPayload(args[1]):
-						found = append(found, w{f, "payload", i.Pos()})
+						what := "payload"
+						// the 4 ttl bytes at their specified offset
+						if sl, isSl := args[1].(*ssa.Slice); isSl && o.Name() == "PutUint32" {
+							lo, okLo := core.ConstInt(sl.Low)
+							hi, okHi := core.ConstInt(sl.High)
+							if okLo && okHi && lo == 1 && hi == 5 {
+								what = "payload: ttl bytes [1:5]"
+							}
+						}
+						found = append(found, w{f, what, i.Pos()})
 					case core.ShortKey(o) == "typed.BytesRef.Update" || core.ShortKey(o) == "typed.ByteRef.Update" || core.ShortKey(o) == "typed.Uint16Ref.Update":
 						if isPayload(args[0]) {
-							found = append(found, w{f, "payload", i.Pos()})
+							what := "payload"
+							if core.ShortKey(o) == "typed.BytesRef.Update" && callResult(args[1], "Checksum.Sum") != nil {
+								what = "payload: checksum bytes = Sum()"
+							}
+							found = append(found, w{f, what, i.Pos()})
 						}
 					}
 				}
@@ -247,24 +259,27 @@ func c08Writes(p *core.Prog, r *core.Report) {
 			}
 		})
 	}
+	// the writes are judged by what they write, wherever the code lives
+	allowedKinds := map[string]string{
+		"Header.ID":                       "message id remapped to / from the other connection's id",
+		"payload: ttl bytes [1:5]":        "time-to-live clamped to the relay maximum",
+		"payload: checksum bytes = Sum()": "checksum bytes re-stamped after arg2 was modified",
+	}
 	seen := map[string]bool{}
+	kinds := map[string]int{}
 	for _, x := range found {
 		key := fname(x.fn) + "|" + x.what
 		if seen[key] {
 			continue
 		}
 		seen[key] = true
-		why, ok := allowedRelayWrites[key]
+		kinds[x.what]++
+		why, ok := allowedKinds[x.what]
 		r.Check(ok, "C08-R1", fname(x.fn), "write to "+x.what+" of a forwarded frame", p.Pos(x.pos), "allowed: "+why, "the relay modifies a forwarded frame beyond id / ttl / checksum")
 	}
-	var keys []string
-	for k := range allowedRelayWrites {
-		keys = append(keys, k)
-	}
-	sort.Strings(keys)
-	for _, k := range keys {
-		if !seen[k] {
-			r.Errorf("expected relay write %q was not found (anchor moved or analysis lost it)", k)
+	for k := range allowedKinds {
+		if kinds[k] == 0 {
+			r.Errorf("expected relay write of kind %q was not found (anchor moved or analysis lost it)", k)
 		}
 	}
 }
@@ -498,4 +513,158 @@ func c08Append(p *core.Prog, r *core.Report) {
 		}
 		r.Check(ok, "C08-R5", fname(f), "arg1 copied from the original call req", p.Pos(f.Pos()), "method bytes written into the first new frame", "arg1 is not carried over into the re-fragmented request")
 	}
+}
+
+// c08PostRemapIDs: once a frame's header id has been re-stamped with the other
+// connection's id, that header id is not used as a key of this connection's
+// item table any more: no read of Header.ID that can happen after the
+// re-stamp - in the relaying function itself or in a callee that receives the
+// frame - reaches the id argument of failRelayItem / finishRelayItem (called
+// directly or through a func-typed field) or a struct field that is later
+// used as such an argument.
+func c08PostRemapIDs(p *core.Prog, r *core.Report, rule string) {
+	idF := p.Field("", "FrameHeader", "ID")
+	if idF == nil {
+		r.Errorf("FrameHeader.ID does not resolve")
+		return
+	}
+	// id-argument positions of the item-ending calls
+	idArgOf := func(i ssa.Instruction) (ssa.Value, bool) {
+		if c, ok := core.IsCall(i, "Relayer.failRelayItem", "Relayer.finishRelayItem"); ok {
+			return core.CallArgs(c)[2], true
+		}
+		if c, ok := i.(*ssa.Call); ok {
+			if fl := core.LoadedField(c.Call.Value); fl != nil && strings.Contains(fl.Name(), "failRelayItem") && len(c.Call.Args) >= 2 {
+				return c.Call.Args[1], true
+			}
+		}
+		return nil, false
+	}
+	// fields whose value is used as such an id
+	sinkFields := map[*types.Var]bool{}
+	for _, f := range p.SrcFuncs {
+		if pkgOf(f) != core.Root {
+			continue
+		}
+		core.EachInstr(f, func(i ssa.Instruction) {
+			if v, ok := idArgOf(i); ok {
+				if fl := core.LoadedField(v); fl != nil && fl != idF {
+					sinkFields[fl] = true
+				}
+			}
+		})
+	}
+	isIDLoad := func(v ssa.Value) bool { return core.LoadedField(v) == idF }
+	// uses of a tainted (post-re-stamp) id value
+	badUse := func(g *ssa.Function, v ssa.Value) (ssa.Instruction, string) {
+		if v.Referrers() == nil {
+			return nil, ""
+		}
+		for _, ref := range *v.Referrers() {
+			if a, ok := idArgOf(ref); ok && a == v {
+				return ref, "used as the item id of " + calleeShortI(ref)
+			}
+			if st, ok := ref.(*ssa.Store); ok && st.Val == v {
+				if fl := core.AddrField(st.Addr); fl != nil && sinkFields[fl] {
+					return ref, "stored in " + fl.Name() + ", which is later used as an item id"
+				}
+			}
+		}
+		return nil, ""
+	}
+	n := 0
+	for _, name := range []string{"handleCallReq", "handleNonCallReq"} {
+		f := mustFunc(p, r, "", "Relayer", name)
+		if f == nil {
+			continue
+		}
+		var restamp *ssa.Store
+		core.EachInstr(f, func(i ssa.Instruction) {
+			if st, ok := i.(*ssa.Store); ok && core.AddrField(st.Addr) == idF {
+				restamp = st
+			}
+		})
+		if restamp == nil {
+			r.Errorf("%s: no re-stamp of Header.ID found", name)
+			continue
+		}
+		n++
+		how := ""
+		// (1) in the function itself: id loads reachable from the re-stamp
+		core.EachInstr(f, func(i ssa.Instruction) {
+			v, ok := i.(ssa.Value)
+			if !ok || !isIDLoad(v) || how != "" {
+				return
+			}
+			if !core.ReachAvoiding(f, restamp, func(j ssa.Instruction) bool { return j == i }, nil, nil).Found {
+				return
+			}
+			if at, what := badUse(f, v); at != nil {
+				how = "the header id read at " + p.Pos(i.Pos()) + " (after the re-stamp) is " + what
+			}
+		})
+		// (2) in callees that receive the frame after the re-stamp
+		seen := map[*ssa.Function]bool{}
+		var visit func(g *ssa.Function, depth int)
+		visit = func(g *ssa.Function, depth int) {
+			if g == nil || seen[g] || len(g.Blocks) == 0 || depth > 3 || !p.InAnalysed(g) {
+				return
+			}
+			seen[g] = true
+			core.EachInstr(g, func(i ssa.Instruction) {
+				if v, ok := i.(ssa.Value); ok && isIDLoad(v) && how == "" {
+					if at, what := badUse(g, v); at != nil {
+						how = "the header id read in " + fname(g) + " at " + p.Pos(i.Pos()) + " (reached after the re-stamp) is " + what
+					}
+				}
+				if c, ok := i.(*ssa.Call); ok {
+					if cal := c.Call.StaticCallee(); cal != nil && passesFrame(c) {
+						visit(cal, depth+1)
+					}
+				}
+			})
+		}
+		core.EachInstr(f, func(i ssa.Instruction) {
+			c, ok := i.(*ssa.Call)
+			if !ok || !passesFrame(c) {
+				return
+			}
+			if !core.ReachAvoiding(f, restamp, func(j ssa.Instruction) bool { return j == i }, nil, nil).Found {
+				return
+			}
+			if _, isEnd := idArgOf(i); isEnd {
+				return
+			}
+			// a method called on another relayer (the destination's Receive)
+			// works in that connection's id space, where the re-stamped id is
+			// the right key
+			if cal := c.Call.StaticCallee(); cal != nil && cal.Signature.Recv() != nil && strings.HasSuffix(cal.Signature.Recv().Type().String(), ".Relayer") && len(c.Call.Args) > 0 && c.Call.Args[0] != ssa.Value(f.Params[0]) {
+				return
+			}
+			visit(c.Call.StaticCallee(), 1)
+		})
+		r.Check(how == "", rule, fname(f), "no header id read after the re-stamp keys this connection's item table", p.Pos(restamp.Pos()),
+			"ids given to failRelayItem / finishRelayItem (directly, through helpers or through struct fields) are read before Header.ID is re-stamped", how+": it names another call of this table (or none)")
+	}
+	if n == 0 {
+		r.Errorf("no relaying function with a header re-stamp found")
+	}
+}
+
+// passesFrame: the call hands over a *Frame or *lazyCallReq.
+func passesFrame(c *ssa.Call) bool {
+	for _, a := range c.Call.Args {
+		t := a.Type().String()
+		if strings.HasSuffix(t, ".Frame") || strings.HasSuffix(t, ".lazyCallReq") {
+			return true
+		}
+	}
+	return false
+}
+
+func calleeShortI(i ssa.Instruction) string {
+	if c, ok := i.(ssa.CallInstruction); ok {
+		return calleeShort(c)
+	}
+	return "?"
 }
